@@ -52,6 +52,16 @@ def diamond5_names():
     return ("d-outer", "d-outer", "d-outer", "d-outer", "d-inner")
 
 
+def simple_clique(vs):
+    """a user callback whose number of edges varies: self-pairs and repeated pairs are dropped"""
+    out = []
+    for i in range(len(vs)):
+        for j in range(i + 1, len(vs)):
+            if vs[i] != vs[j] and not any((a == vs[i] and b == vs[j]) or (a == vs[j] and b == vs[i]) for a, b in out):
+                out.append((vs[i], vs[j]))
+    return out
+
+
 def single_edge_list(vs):  # a one-edge motif returned as a proper list of edges
     return [(vs[0], vs[1])]
 
@@ -83,6 +93,7 @@ def motif_spec(name):
         # two topologies whose motifs have the same number of edges but different names
         "k3c3": dict(sizes=[3, 3], builds=[clique_motif, cycle_motif], names=["3-clique", "3-cycle"]),
         "k2k2": dict(sizes=[2, 2], builds=[clique_motif, clique_motif], names=["2-clique-red", "2-clique-blue"]),
+        "k3simple+k2": dict(sizes=[3, 2], builds=[simple_clique, clique_motif], names=["simple-3", "2-clique"]),
         "k2k3k2": dict(sizes=[2, 3, 2], builds=[clique_motif, clique_motif, clique_motif], names=["a", "b", "c"]),
     }
     C = {
@@ -128,6 +139,10 @@ def sym_jds(ctx, cfg, spec, tag=""):
     N, D = cfg["N"], cfg["D"]
     K = len(spec["sizes"])
     d = [[ctx.int(f"d{tag}{v}_{k}", 0, D) for k in range(K)] for v in range(N)]
+    if cfg.get("fixed_d"):
+        for v in range(N):
+            for k in range(K):
+                ctx.assume(d[v][k] == cfg["fixed_d"][v][k])
     col = []
     for k in range(K):
         s = 0
